@@ -27,11 +27,19 @@ func genC14(r *Rng, tier string) *World {
 	c.NoCoerceVariants = true
 	c.PAbsent = 0
 	c.PBadType = 0
-	fam := Pick(r, []string{"flat", "flat", "nested-json", "nested-flat", "ptr-root"})
+	fam := Pick(r, []string{"flat", "flat", "nested-json", "nested-flat", "ptr-root", "gostruct"})
 	w.Family = fam
 	ptrRoot := fam == "ptr-root"
 	if ptrRoot {
 		fam = "flat" // a top-level optional struct: Ptr(Struct{...}) over a flat record
+	}
+	goStruct := fam == "gostruct"
+	if goStruct {
+		// the record is also handed over as a Go struct value; its fields are found by name, so the schema
+		// keys are written the way Go spells exported fields
+		fam = Pick(r, []string{"flat", "nested-json"})
+		w.Family = fam
+		c.PTags = 0
 	}
 	var root *Node
 	switch fam {
@@ -84,6 +92,13 @@ func genC14(r *Rng, tier string) *World {
 			}
 		}
 	})
+	if goStruct {
+		root.Walk(func(n *Node) {
+			for _, f := range n.Fields {
+				f.Key, f.Tags = GoName(f.Key), nil
+			}
+		})
+	}
 	if ptrRoot {
 		root = &Node{Kind: "ptr", Req: r.P(0.3), Elem: root}
 	}
@@ -174,6 +189,9 @@ func genC14(r *Rng, tier string) *World {
 			fronts = append(fronts, "zenv")
 		}
 	}
+	if goStruct {
+		fronts = append(fronts, "gostruct")
+	}
 	allStr := in.K == "m" && len(in.M) > 0
 	for _, kv := range in.M {
 		if kv.V.K != "s" {
@@ -211,6 +229,8 @@ func genC14(r *Rng, tier string) *World {
 			op.IO = io
 		case "zenv":
 			op.Front = "zenv"
+		case "gostruct":
+			op.Front = "gostruct"
 		case "mapstr":
 			op.Front = "mapstr"
 		}
@@ -390,6 +410,11 @@ func genC06(r *Rng, tier string) *World {
 	c.EmptyTags = true
 	c.PPT = Pick(r, []float64{0, 0.2})
 	root := GenNode(r, &c, 0, true)
+	if r.P(0.05) {
+		// long paths (the pooled path builder grows past its first steps), then more calls on the same pools
+		c.MaxElems = 2
+		root = DeepChain(r, &c, DeepSegments(r))
+	}
 	if r.P(0.15) && root.Kind == "struct" {
 		// valid configuration the statement names explicitly: long field names
 		root.Fields = append(root.Fields, &Field{Key: Pick(r, longKeys), N: &Node{Kind: "string", Req: r.P(0.5)}})
